@@ -217,10 +217,23 @@ class World(object):
             else:
                 sub = self.composite(order, comp_f)
                 name = "composite"
-            got, bad = self._call(name + ".query", sub.query, S.mk_filters(arg_f))
+            qarg = S.mk_filters(arg_f)
+            if pr.get("as_filterset"):
+                # the query handed over as a FilterSet object (what the workbench helpers do); the same object is then used again
+                qarg = self.stix2.datastore.filters.FilterSet(qarg)
+                before = sorted(repr(f) for f in qarg)
+            got, bad = self._call(name + ".query", sub.query, qarg)
             if not bad:
-                S.compare_answer("%s.query order %s" % (name, order), got, exp.objs, self.fails, "composite:query",
+                S.compare_answer("%s.query order %s%s" % (name, order, " (FilterSet object)" if pr.get("as_filterset") else ""), got, exp.objs, self.fails, "composite:query",
                                  "arg=%s composite=%s member=%s" % (core.short(arg_f, 200), core.short(comp_f, 200), core.short(by_member, 200)))
+            if pr.get("as_filterset") and not bad:
+                if sorted(repr(f) for f in qarg) != before:
+                    self.fails.append(("query-argument-modified:FilterSet", "%s.query(FilterSet) changed the caller's FilterSet: %s -> %s" % (name, before, sorted(repr(f) for f in qarg))))
+                else:
+                    got, bad = self._call(name + ".query", sub.query, qarg)
+                    if not bad:
+                        S.compare_answer("%s.query order %s (same FilterSet object, second call)" % (name, order), got, exp.objs, self.fails, "composite:query:reused-filterset",
+                                         "arg=%s composite=%s member=%s" % (core.short(arg_f, 200), core.short(comp_f, 200), core.short(by_member, 200)))
             sid = self.ids[pr.get("probe", 0) % len(self.ids)] if self.ids else None
             if sid and not arg_f:
                 got, bad = self._call(name + ".all_versions", sub.all_versions, sid)
@@ -532,6 +545,8 @@ def analyse(case):
             for f in pr["filters"]:
                 cl.add("filter-route:" + f["route"])
             cl.add("query-route:" + pr.get("route", "composite"))
+            if pr.get("as_filterset"):
+                cl.add("query-as-FilterSet-object")
     for h in case.get("history") or []:
         cl.add("history:" + h["m"])
     if case.get("history"):
@@ -603,10 +618,10 @@ def configuration(draw):
         return {"p": kind, "x": x, "argform": draw(st.sampled_from(["id", "dict", "object"])), "rtype": rtype, "so": fl[0], "to": fl[1],
                 "route": draw(routes), "filters": flt, "flip": draw(st.integers(0, 5))}
     fr = st.sampled_from(["arg", "comp", "member"])
-    query = st.builds(lambda fs, rs, ms, route, probe, flip: {"p": "query", "filters": [dict(f, route=rs[i % len(rs)], member=ms[i % len(ms)]) for i, f in enumerate(fs)],
-                                                               "route": route, "probe": probe, "flip": flip},
+    query = st.builds(lambda fs, rs, ms, route, probe, flip, asfs: {"p": "query", "filters": [dict(f, route=rs[i % len(rs)], member=ms[i % len(ms)]) for i, f in enumerate(fs)],
+                                                                     "route": route, "probe": probe, "flip": flip, "as_filterset": asfs},
                       G.filter_set(pop, 1, 3, no_ts=True), st.lists(fr, min_size=1, max_size=3), st.lists(st.integers(0, 3), min_size=1, max_size=3),
-                      st.sampled_from(["composite", "composite", "env"]), st.integers(0, 40), st.integers(0, 5))
+                      st.sampled_from(["composite", "composite", "env"]), st.integers(0, 40), st.integers(0, 5), st.sampled_from([False, False, True]))
     creator = st.builds(lambda x, af, route, flip: {"p": "creator", "x": x, "argform": af, "route": route, "flip": flip},
                         st.one_of(st.sampled_from([i for i, o in enumerate(pop) if o.get("created_by_ref")] or [0]), st.integers(0, len(pop) - 1)),
                         st.sampled_from(["dict", "object"]), routes, st.integers(0, 5))
@@ -626,7 +641,7 @@ REQUIRED_CLASSES = ["newest-version-not-in-first-member", "copy-in-several-membe
                     "probe:related", "probe:creator", "route:composite", "route:env", "route:store", "route:source", "argform:id", "argform:dict",
                     "argform:object", "argform:absent-id", "nav:both-flags", "nav:source_only", "nav:target_only", "nav:relationship_type", "nav:extra-filters",
                     "filter-route:arg", "filter-route:comp", "filter-route:member", "query-route:env",
-                    "history:detach", "history:attach", "history:late-add", "history:attach-twice", "history:parent-filter"]
+                    "query-as-FilterSet-object", "history:detach", "history:attach", "history:late-add", "history:attach-twice", "history:parent-filter"]
 
 
 def run(ctx):
